@@ -10,7 +10,7 @@ from gen_git import *  # noqa
 PROP_FILES = ["Git/Properties_C19.v"]
 MANIFEST = dict(
     technique="Coq proof (nested induction over git trees) on a Gallina port of git/diff.rs + check_git_diff.rs, tied by differential execution of the extracted model against GitDiff (library) and `check --diff/--staged` (CLI) on random histories built with the real git, plus git diff as an independent oracle",
-    text="Theorems C19_tree_diff_exact, C19_equal_oid_equal_flatten, C19_subtree_cases, C19_range_parse, C19_diff_files_exact, C19_diff_run_is_restriction, C19_staged_exact hold for all trees / indexes / file lists (unbounded; names unique per tree). The tie to the Rust code is a seeded differential run over scripted git histories (adds, edits, deletions, renames, chmod, file<->directory swaps, nesting, branches, tags, merges, symlinks, submodule entries, empty repository, staged/partially staged states) and every ref/range spelling, at library level (raw sets) and CLI level (reported files, statuses, structure results), and git diff --raw/--name-only --no-renames as second oracle.",
+    text="Theorems C19_tree_diff_exact, C19_equal_oid_equal_flatten, C19_subtree_cases, C19_range_parse, C19_diff_files_exact, C19_diff_run_is_restriction, C19_files_list_is_restricted, C19_staged_exact hold for all trees / indexes / file lists (unbounded; names unique per tree). The tie to the Rust code is a seeded differential run over scripted git histories (adds, edits, deletions, renames, chmod, file<->directory swaps, nesting, branches, tags, merges, symlinks, submodule entries, empty repository, staged/partially staged states) and every ref/range spelling, at library level (raw sets) and CLI level (reported files, statuses, structure results; also with an explicit --files list of members and non-members of the set, fix D105), and git diff --raw/--name-only --no-renames as second oracle.",
     note="Trusted: Coq kernel, extraction (ExtrOcamlBasic), harness sgv-git, gix object reading and rev-parsing (entering as data: the two trees / the index are read with git ls-tree / ls-files), SHA-1 collision freeness (object-id equality is modelled as structural equality), std::fs::canonicalize (entering as a table computed with os.path.realpath). Mode-only changes are changes, as for git diff --name-only (fix D70); git diff records that touch only symlinks / submodules are not about regular files and are left out of the oracle.",
     ref="5 (C19)")
 
@@ -69,7 +69,7 @@ def spec_sets(fa, fb):
     return chg, dele
 
 
-def run_script_case(script, subdir, exes, queries=None, seed=0, tier="quick", variant="norm", keep=None):
+def run_script_case(script, subdir, exes, queries=None, seed=0, tier="quick", variant="norm", keep=None, staged_files=None):
     """Execute one scripted history and all its queries against the implementation.
     Returns a dict with everything the model side and the oracles need."""
     sgcli, sgvgit, _ = exes
@@ -145,6 +145,41 @@ def run_script_case(script, subdir, exes, queries=None, seed=0, tier="quick", va
                                                               "" if lost or spurious else " (same entries, different order)"))
             return files, bad
 
+        def listed_leg(mode_args, oracle, fixed=None):
+            """`--files L` next to --diff / --staged (fix D105): L is a mix of members and non-members of the
+            changed set, as the user would spell them from the project root; sometimes a path that does not
+            exist.  Returns what was listed, what was reported, and the deviations from the full run."""
+            if fixed is not None:
+                rels = list(fixed)
+            else:
+                ins = [p for p in full_files if p in oracle]
+                outs = [p for p in full_files if p not in oracle]
+                pick = rng.sample(ins, min(len(ins), rng.randint(0, 2))) + rng.sample(outs, min(len(outs), rng.randint(1, 2)))
+                rng.shuffle(pick)
+                rels = [p[len(sub_b):].decode() for p in pick]
+                if rng.random() < 0.15:
+                    rels.insert(rng.randint(0, len(rels)), "no such file.rs")
+            if not rels:
+                return None
+            rc3, o3, e3 = cli(sb, sgcli, cwd, mode_args + ["--files"] + rels)
+            leg = {"args": rels, "listed": [sub_b + r.encode() for r in rels]}
+            if rc3 not in (0, 1):
+                leg["error"] = {"rc": rc3, "stderr": e3[:300]}
+                return leg
+            content, struct = split_results(o3)
+            leg["cli"] = [sub_b + p.encode() for p, _ in content]
+            leg["bad"] = []
+            for (p, r) in content:
+                f = sub_b + p.encode()
+                if f not in full_status:
+                    leg["bad"].append("reported %r which the full run does not report" % p)
+                elif full_status[f] != r:
+                    leg["bad"].append("status of %r differs from the full run: %s vs %s" % (p, r, full_status[f]))
+            if struct:
+                leg["bad"].append("--files run carries %d structure results" % len(struct))
+            leg["expected"] = [f for f in leg["listed"] if f in oracle]
+            return leg
+
         # ---- staged
         lib_lines = ["staged\t" + cwd]
         lib_meta = [("staged",)]
@@ -163,6 +198,10 @@ def run_script_case(script, subdir, exes, queries=None, seed=0, tier="quick", va
             # classifiers for the known classes
             case["link_targets"] = [cmap.get(p) for (p, k, _, _) in idx if k == "l" and cmap.get(p) is not None]
             case["index_deleted_present"] = [r[5] for r in raw if r[4] == "D" and r[0] in ("100644", "100755") and is_regular_on_disk(repo, r[5])]
+            if staged_files is not None or (script is None and rng.random() < 0.6):
+                leg = listed_leg(["--staged"], case["oracle"], staged_files)
+                if leg:
+                    case["listed"] = leg
         else:
             case["cli_error"] = {"rc": rc, "stderr": e2[:300]}
         out["cases"].append(case)
@@ -184,6 +223,12 @@ def run_script_case(script, subdir, exes, queries=None, seed=0, tier="quick", va
             for _ in range(4):
                 pairs.append((rng.choice(commits), rng.choice(commits)))
             rng.shuffle(pairs)
+            # commits that hold a pure in-place rename: their (parent, commit) and (commit-parent, HEAD) pairs
+            # go to the front more often, so the CLI legs (first ncli pairs) see them
+            rc_set = set(getattr(repo, "rename_commits", []))
+            front = [pr for pr in pairs if pr[1] in rc_set and pr[0] in info["parents"].get(pr[1], []) and rng.random() < 0.5]
+            if front:
+                pairs = front[:2] + [pr for pr in pairs if pr not in front[:2]]
             npairs = 6 if tier == "quick" else 14
             ncli = 3 if tier == "quick" else 6
             for i, (a, b) in enumerate(pairs[:npairs]):
@@ -237,6 +282,10 @@ def run_script_case(script, subdir, exes, queries=None, seed=0, tier="quick", va
                     case["raw_special"] = [r[5] for r in raw if r[0] in ("120000", "160000") or r[1] in ("120000", "160000")]
                     case["alias_targets"] = [v for k, v in cmap.items() if v != k]
                     case["name_only_ok"] = git_name_only(repo, [a, b]) == sorted(r[5] for r in raw)
+                    if q.get("files") is not None or (queries is None and rng.random() < 0.5):
+                        leg = listed_leg(["--diff", rng_str], case["oracle"], q.get("files"))
+                        if leg:
+                            case["listed"] = leg
                 else:
                     case["cli_error"] = {"rc": rc, "stderr": e2[:300]}
             out["cases"].append(case)
@@ -306,14 +355,14 @@ def run_with(ctx, exes):
     nrepo = 300 if ctx.tier == "quick" else 2500
     jobs = []
     for c in corpus_cases():
-        jobs.append(dict(script=c["script"], subdir=c.get("subdir"), queries=c.get("queries"), seed=0, variant="corpus:" + c.get("name", "?")))
+        jobs.append(dict(script=c["script"], subdir=c.get("subdir"), queries=c.get("queries"), seed=0, variant="corpus:" + c.get("name", "?"), staged_files=c.get("staged_files")))
     for k in range(nrepo):
         r = ctx.rng.random()
         variant = "nocommit" if r < 0.07 else ("subdir" if r < 0.17 else "norm")
         jobs.append(dict(script=None, subdir="pkg" if variant == "subdir" else None, seed=ctx.rng.randrange(1 << 40), variant=variant))
     results = []
     with cf.ThreadPoolExecutor(max_workers=14) as ex:
-        futs = [ex.submit(run_script_case, j["script"], j["subdir"], exes, j.get("queries"), j["seed"], ctx.tier, j["variant"]) for j in jobs]
+        futs = [ex.submit(run_script_case, j["script"], j["subdir"], exes, j.get("queries"), j["seed"], ctx.tier, j["variant"], None, j.get("staged_files")) for j in jobs]
         for f in futs:
             results.append(f.result())
 
@@ -329,16 +378,21 @@ def run_with(ctx, exes):
                 lines.append("wf\t%s" % c["tb"]); meta.append((ri, ci, "wf"))
                 if "cli" in c:
                     lines.append("diff\t%s\t%s\t%s\t%s" % (c["ta"], c["tb"], c["canon"], c["files"])); meta.append((ri, ci, "diff"))
+                if "listed" in c and "cli" in c["listed"]:
+                    lines.append("diff\t%s\t%s\t%s\t%s" % (c["ta"], c["tb"], c["canon"], paths_wire(c["listed"]["listed"]))); meta.append((ri, ci, "listed"))
             elif c["kind"] == "staged":
                 lines.append("staged\t%s\t%s\t%s" % (c["head"], c["index"], c["canon"])); meta.append((ri, ci, "staged"))
                 if "cli" in c:
                     lines.append("stagedf\t%s\t%s\t%s\t%s" % (c["head"], c["index"], c["canon"], c["files"])); meta.append((ri, ci, "stagedf"))
+                if "listed" in c and "cli" in c["listed"]:
+                    lines.append("stagedf\t%s\t%s\t%s\t%s" % (c["head"], c["index"], c["canon"], paths_wire(c["listed"]["listed"]))); meta.append((ri, ci, "listed"))
     mouts, merrs = run_sharded(model, lines, timeout=600)
     if merrs or any(o.startswith("BAD") or o == "BADLINE" for o in mouts):
         raise CheckBroken("model driver failed: %s" % (merrs[:1] or [o for o in mouts if o.startswith("BAD")][:1]))
 
     mism, viol, stats = [], [], {"lib_range": 0, "lib_staged": 0, "cli_diff": 0, "cli_staged": 0, "oideq": 0, "spec_instances": 0,
-                                 "pairs_with_special_typechange": 0, "rejects": 0, "spelling_rejected_by_gix": 0}
+                                 "pairs_with_special_typechange": 0, "rejects": 0, "spelling_rejected_by_gix": 0,
+                                 "cli_files_list": 0, "cli_files_list_members": 0, "cli_files_list_nonmembers": 0}
     hist, spk_hist, variants = {}, {}, {}
     nontrivial = set()
     stats["scanned_files"] = sum(len(r["full"]["files"]) for r in results if "full" in r)
@@ -356,6 +410,10 @@ def run_with(ctx, exes):
         if c["kind"] == "diff":
             d["queries"] = [{"a": c["a"], "b": c["b"], "spa": ["sha", c["a"]], "spb": ["sha", c["b"]], "form": "A..B", "cli": True}]
             d["range_used"] = c["range"]
+            if "listed" in c:
+                d["queries"][0]["files"] = c["listed"]["args"]
+        elif c["kind"] == "staged" and "listed" in c:
+            d["staged_files"] = c["listed"]["args"]
         d.update(extra)
         d["replay_cmd"] = "python3 tools/vp.py check C19 --replay <this file>"
         return d
@@ -418,6 +476,21 @@ def run_with(ctx, exes):
                         viol.append((res, c, {"kind": "git-diff-oracle", "class": "typechange-special", "range": c["range"], "reported": dec_list(c["cli"]), "git_diff_existing_regular": dec_list(c["oracle"])}))
                 else:
                     viol.append((res, c, {"kind": "git-diff-oracle", "range": c["range"], "reported": dec_list(c["cli"]), "git_diff_existing_regular": dec_list(c["oracle"])}))
+        elif what == "listed":
+            # --files L with --diff / --staged (fix D105): exactly the listed members of the changed set
+            L = c["listed"]
+            stats["cli_files_list"] += 1
+            stats["cli_files_list_members"] += len(L["expected"])
+            stats["cli_files_list_nonmembers"] += len([x for x in L["listed"] if x not in L["expected"]])
+            mode = "--staged" if c["kind"] == "staged" else "--diff " + c["range"]
+            m = parse_paths(mo)
+            if sorted(L["cli"]) != sorted(m):
+                mism.append((res, c, "check %s --files %s reported %s, model %s" % (mode, L["args"], dec_list(L["cli"]), dec_list(m))))
+            for b in L["bad"]:
+                viol.append((res, c, {"kind": "restriction", "what": b, "mode": mode, "files": L["args"]}))
+            if sorted(L["cli"]) != sorted(L["expected"]) and not (c["kind"] == "staged" and c["unmerged"]):
+                viol.append((res, c, {"kind": "files-list-vs-changed-set", "mode": mode, "files": L["args"], "reported": dec_list(L["cli"]),
+                                      "listed_members_of_git_diff": dec_list(L["expected"])}))
         elif what == "staged":
             stats["lib_staged"] += 1
             lib = c.get("lib", "<NOANSWER>")
@@ -458,6 +531,10 @@ def run_with(ctx, exes):
                 stats["rejects"] += 1
                 if c["rc"] != 2:
                     viol.append((res, c, {"kind": "range-not-rejected", "range": c["range"], "rc": c["rc"]}))
+            if "listed" in c and "error" in c["listed"]:
+                viol.append((res, c, {"kind": "cli-error", "details": c["listed"]["error"], "files": c["listed"]["args"], "range": c.get("range")}))
+            if c["kind"] == "reject":
+                pass
             elif "cli_error" in c:
                 core = c["kind"] == "staged" or (c["spk"][0] in CORE_SPELLINGS and c["spk"][1] in CORE_SPELLINGS)
                 if c["kind"] == "staged" and "Failed to open git index" in c["cli_error"]["stderr"] and ctx.known("no-index-file", ""):
@@ -470,7 +547,7 @@ def run_with(ctx, exes):
     # ---- parse_diff_range: library vs model on random strings
     pstats = parse_tie(ctx, sgvgit, model, mism)
 
-    evals = sum(stats[k] for k in ("lib_range", "lib_staged", "cli_diff", "cli_staged", "rejects")) + pstats["strings"]
+    evals = sum(stats[k] for k in ("lib_range", "lib_staged", "cli_diff", "cli_staged", "rejects", "cli_files_list")) + pstats["strings"]
     ctx.cov["evaluations"] = evals
     ctx.cov["distinct_nontrivial"] = len(nontrivial) + pstats["distinct_ranges"]
     ctx.cov["traces_validated_against_impl"] = evals - len(mism)
@@ -625,11 +702,14 @@ def replay(ctx, path):
     def keep(repo, out):
         for c in out["cases"]:
             print("case", c["kind"], c.get("range", ""))
+            if "listed" in c:
+                L = c["listed"]
+                print("   --files  %s -> reported %s ; listed members of the git set %s ; %s" % (L["args"], dec_list(L.get("cli", [])), dec_list(L.get("expected", [])), L.get("bad") or L.get("error") or ""))
             for k in ("lib", "cli", "oracle", "cli_bad", "cli_error", "spec"):
                 if k in c:
                     v = c[k]
                     print("   %-8s %s" % (k, dec_list(v) if isinstance(v, list) and v and isinstance(v[0], bytes) else v))
-    res = run_script_case(j["script"], j.get("subdir"), exes, j.get("queries") or [], 0, "quick", "replay", keep)
+    res = run_script_case(j["script"], j.get("subdir"), exes, j.get("queries") or [], 0, "quick", "replay", keep, j.get("staged_files"))
     model = exes[2]
     for c in res["cases"]:
         if c["kind"] == "diff":
